@@ -223,6 +223,7 @@ func checkC01(c *Ctx, r *Report) {
 		return
 	}
 	c.checkEntryLevels(r, ro)
+	entryDecisions(r, ro, c.checkEntrySemantics(r, ro, "C01.entry-values"), "C01")
 	c.checkLevelTable(r)
 	c.checkEnableFormula(r, ro)
 	c.checkLoggerGates(r, ro)
@@ -1310,6 +1311,7 @@ func checkC10(c *Ctx, r *Report) {
 		return
 	}
 	r.Floor("logging entry points", len(ro.EntryPoints), 15)
+	entryDecisions(r, ro, c.checkEntrySemantics(r, ro, "C10.entry-values"), "C10")
 	hooks := map[*ssa.Global]string{}
 	for _, h := range hookGlobals {
 		if g := c.logGlobal(h); g != nil {
